@@ -259,6 +259,12 @@ var readSrcs = []readSrc{
 	{"$_COOKIE", func(k string) string { return "$_COOKIE['" + k + "']" }, "superglobal", "cookie"},
 	{"$_REQUEST", func(k string) string { return "$_REQUEST['" + k + "']" }, "superglobal", "query"},
 	{"$_SERVER", func(k string) string { return "$_SERVER['REQUEST_URI']" }, "superglobal", "server"},
+	// the same superglobals read inside something the handler calls (the read is then not made from
+	// the handler's own frame); whatever such a read yields, it must not be another request's data
+	{"$_GET@function", func(k string) string { return "rdGet('" + k + "')" }, "nested", "query"},
+	{"$_COOKIE@closure", func(k string) string { return "(function ($kk) { return $_COOKIE[$kk] ?? ''; })('" + k + "')" }, "nested", "cookie"},
+	{"$_POST@static-method", func(k string) string { return "Rd::post('" + k + "')" }, "nested", "form"},
+	{"$_REQUEST@function", func(k string) string { return "rdRequest('" + k + "')" }, "nested", "query"},
 }
 
 type handlerSpec struct {
@@ -303,7 +309,7 @@ func handlerSource(route string, h handlerSpec) string {
 // $next it received must belong to the request it is serving, like a handler's).
 func serverScript(handlers []handlerSpec, mw ...bool) string {
 	var sb strings.Builder
-	sb.WriteString("<?php\nuse Net\\Http\\Server;\nclass Holder { public $v; }\nfunction joinVals($vs) { $s = ''; foreach ($vs as $x) { $s = $s . $x . ','; } return $s; }\n$server = new Server('127.0.0.1', 0);\n")
+	sb.WriteString("<?php\nuse Net\\Http\\Server;\nclass Holder { public $v; }\nfunction rdGet($k) { return $_GET[$k] ?? ''; }\nfunction rdRequest($k) { return $_REQUEST[$k] ?? ''; }\nclass Rd { static function post($k) { return $_POST[$k] ?? ''; } }\nfunction joinVals($vs) { $s = ''; foreach ($vs as $x) { $s = $s . $x . ','; } return $s; }\n$server = new Server('127.0.0.1', 0);\n")
 	if len(mw) > 0 && mw[0] {
 		sb.WriteString("$server->middleware(function ($req, $res, $next) {\n    $m = $req->header('X-a');\n    $res->header('X-MW-Before', $m);\n    $next($req, $res);\n    $res->write(';mw=' . $m . '|' . $req->header('X-b'));\n});\n")
 	}
@@ -485,8 +491,9 @@ func TestC11(t *testing.T) {
 					// attribute to the superglobal source involved, if any
 					key := f.Key
 					for _, s := range []readSrc{s2, s1} {
-						if s.Via == "superglobal" {
-							key = "feature:" + s.Name
+						if s.Via == "superglobal" || s.Via == "nested" {
+							// a nested read goes through the same package-level cache as the direct one
+							key = "feature:" + strings.SplitN(s.Name, "@", 2)[0]
 							break
 						}
 					}
@@ -509,6 +516,30 @@ func TestC11(t *testing.T) {
 			rec.Label("sequential:"+s1.Name, c.Cfg.Script)
 			if f := c11Judge(pool, alonePool, rec, c); f != nil {
 				rec.Fail(f.Key+":"+s1.Name, f.Detail, f.Case)
+			}
+		}
+	}
+	// (iii-b) two routes served in turn: one reads a superglobal in the handler body, the other only inside
+	// something it calls; the second must not see what the first request left behind
+	for di, ds := range readSrcs {
+		if ds.Via != "superglobal" {
+			continue
+		}
+		for ni, ns := range readSrcs {
+			if ns.Via != "nested" {
+				continue
+			}
+			idx++
+			if !cfg.Mine(idx) {
+				continue
+			}
+			hs := []handlerSpec{{Reads: []int{di}, Style: 0}, {Reads: []int{ni, ni}, Style: 1}}
+			c := c11Case{Handlers: hs, Sources: []string{ds.Name, ns.Name}}
+			c.Cfg = httpCfg{Script: serverScript(hs), Mode: "alone", Reqs: []httpReqSpec{requestFor("/h1", 1), requestFor("/h0", 2), requestFor("/h1", 3), requestFor("/h0", 4), requestFor("/h1", 5)}}
+			rec.NonTrivial(c.Cfg.Script, "sequential-2routes")
+			rec.Label("sequential:direct-then-nested", c.Cfg.Script)
+			if f := c11Judge(pool, alonePool, rec, c); f != nil {
+				rec.Fail(f.Key+":"+ns.Name, f.Detail, f.Case)
 			}
 		}
 	}
@@ -535,7 +566,7 @@ func TestC11(t *testing.T) {
 	// main campaign: random handlers, sources not excluded
 	var allowed []int
 	for i, s := range readSrcs {
-		if !excluded[s.Name] {
+		if !excluded[strings.SplitN(s.Name, "@", 2)[0]] {
 			allowed = append(allowed, i)
 		}
 	}
